@@ -627,6 +627,62 @@ Definition cmd_zrange_gen (rev_ : bool) (st : rstate) (args : list string) : rst
   | _ => (st, arity (if rev_ then "zrevrange" else "zrange"))
   end.
 
+(* Z[REV]RANGEBYSCORE key min max [WITHSCORES] [LIMIT offset count]   (integer, "-inf", "+inf" and
+   "(" exclusive integer bounds; for the REV form the arguments are max min) *)
+Inductive sbound := SInf (neg : bool) | SVal (excl : bool) (v : Z).
+Definition parse_sbound (s : string) : option sbound :=
+  if String.eqb (lower s) "-inf" then Some (SInf true)
+  else if (String.eqb (lower s) "+inf" || String.eqb (lower s) "inf")%bool then Some (SInf false)
+  else match s with
+       | String "(" r => match parse_ll r with Some v => Some (SVal true v) | None => None end
+       | _ => match parse_ll s with Some v => Some (SVal false v) | None => None end
+       end.
+Definition ge_lo (lo : sbound) (v : Z) : bool :=
+  match lo with SInf n => n | SVal true b => (b <? v)%Z | SVal false b => (b <=? v)%Z end.
+Definition le_hi (hi : sbound) (v : Z) : bool :=
+  match hi with SInf n => negb n | SVal true b => (v <? b)%Z | SVal false b => (v <=? b)%Z end.
+
+Fixpoint byscore_opts (rest : list string) (ws : bool) (lim : option (Z * Z)) : option (option (bool * option (Z * Z))) :=
+  match rest with                          (* None: syntax error; Some None: unsupported *)
+  | [] => Some (Some (ws, lim))
+  | w :: r =>
+      if String.eqb (lower w) "withscores" then byscore_opts r true lim
+      else if String.eqb (lower w) "limit" then
+        match r with
+        | o :: c :: r' => match parse_ll o, parse_ll c with
+                          | Some o', Some c' => byscore_opts r' ws (Some (o', c'))
+                          | _, _ => Some None
+                          end
+        | _ => None
+        end
+      else None
+  end.
+
+Definition cmd_zrangebyscore_gen (rev_ : bool) (st : rstate) (args : list string) : rstate * reply :=
+  match args with
+  | k :: a :: b :: rest =>
+      let '(lo_s, hi_s) := if rev_ then (b, a) else (a, b) in
+      match parse_sbound lo_s, parse_sbound hi_s, byscore_opts rest false None with
+      | _, _, None => (st, RErr "ERR syntax error")
+      | Some lo, Some hi, Some (Some (ws, lim)) =>
+          match get_zset st k with
+          | None => (st, wrongtype)
+          | Some oz =>
+              let l := filter (fun mv => ge_lo lo (snd mv) && le_hi hi (snd mv))%bool (zsorted (zset_or_empty oz)) in
+              let l := if rev_ then rev l else l in
+              let l := match lim with
+                       | None => l
+                       | Some (o, c) => if (o <? 0)%Z then [] else
+                                        let l' := skipn (Z.to_nat o) l in
+                                        if (c <? 0)%Z then l' else firstn (Z.to_nat c) l'
+                       end in
+              (st, RArr (zreply ws l))
+          end
+      | _, _, _ => (st, unsupported "ZRANGEBYSCORE bound / option form")
+      end
+  | _ => (st, arity (if rev_ then "zrevrangebyscore" else "zrangebyscore"))
+  end.
+
 (* ---------- dispatch (what redis.call / a client connection can reach) ---------- *)
 Definition redis_call (st : rstate) (argv : list string) : rstate * reply :=
   match argv with
@@ -661,5 +717,7 @@ Definition redis_call (st : rstate) (argv : list string) : rstate * reply :=
       else if String.eqb c "zcard" then cmd_zcard st args
       else if String.eqb c "zrange" then cmd_zrange_gen false st args
       else if String.eqb c "zrevrange" then cmd_zrange_gen true st args
+      else if String.eqb c "zrangebyscore" then cmd_zrangebyscore_gen false st args
+      else if String.eqb c "zrevrangebyscore" then cmd_zrangebyscore_gen true st args
       else (st, RErr ("ERR unknown command '" ++ c ++ "' (not in the C18 model)"))
   end.
